@@ -3,6 +3,7 @@ import NutsModel.C04.Token
 import NutsModel.C04.Limiter
 import NutsModel.C04.Uuid
 import NutsModel.C04.Config
+import NutsModel.C04.SshKey
 import NutsModel.Facts.C04
 open Lean Nuts.Drv Nuts.C04 Nuts
 
@@ -176,7 +177,11 @@ def step (st : St) (j : Json) : St × List String :=
       let verdict : SshVerdict :=
         if jBool v "err" || v.isNull then .error
         else
-          let kind := match jStr v "kind" with
+          -- the key's kind (and the strength of an RSA modulus) is computed by the model from the bytes of the key blob, with the
+          -- measure the regenerated facts name; ops without a blob (older corpus files) state the kind
+          let kind := if jHas v "blob" then
+              kindOfBlob Facts.C04.rsaMeasure ((unhexStr (jStr v "blob")).map (fun c => UInt8.ofNat c.toNat))
+            else match jStr v "kind" with
             | "rsa" => KeyKind.rsa (jNat v "bits") | "ecdsa" => .ecdsa | "ed25519" => .ed25519 | _ => .other
           .key kind (jStr v "comment")
       (({ raw := unhexStr (jStr l "raw"), verdict := verdict } : KeyLine), unhexStr (jStr l "pre")))
